@@ -198,7 +198,69 @@ def wrapper(ck, ctx):
             ck.ob("wrapper", "add_build|%s.ids" % adt.split("::")[-1], e[0] == "call" and e[1] == "load::Loader::evaluate_paths", "%s.ids = %s" % (adt, show(e, 1)), span=s.get("loc"), fn=ab.nname)
 
 
+def component_step(ck, ctx):
+    """one stack entry per copied component: the copy after each components.push ends at the FIRST separator"""
+    from n2sa import bytetable as BT
+    F = ctx.F
+    b = ck.need("fn " + CANON, F.body(CANON))
+    cfg = ctx.cfg(b)
+    R = ctx.res(b)
+    ck.functions.add(CANON)
+    pushes = Q.sites_in(b, "canon::StackStack::push")
+    copies = [(bb, t) for bb, t in b.calls() if callee_of(t).endswith("copy_within")]
+    poss = [(bb, t) for bb, t in b.calls() if callee_of(t).endswith("Iterator>::position") or callee_of(t).endswith("Iterator::position")]
+    ok_shape = len(pushes) == 1 and len(copies) == 1 and len(poss) == 1
+    if ok_shape:
+        hdr = cfg.enclosing_loop_header(pushes[0][0])
+        ok_shape = hdr is not None and all(cfg.enclosing_loop_header(x) == hdr for x in (copies[0][0], poss[0][0])) and cfg.dominates(pushes[0][0], copies[0][0]) and cfg.dominates(poss[0][0], copies[0][0])
+        # every path from the push to the next iteration performs the copy
+        r = cfg.reach_avoid([y for y, _ in cfg.succ[pushes[0][0]]], avoid_blocks=[copies[0][0]])
+        ok_shape = ok_shape and hdr not in r
+    ck.ob("component-step", "push-then-one-copy", ok_shape, "each loop iteration that pushes a stack entry performs exactly one copy_within, after locating its end with one position() scan", span=b.loc, fn=CANON)
+    if not ok_shape:
+        return
+    pbb, pt = poss[0]
+    it = strip(R.arg(pbb, 0))
+    # element-wise iteration over data[src..]
+    ok_it = it[0] == "call" and it[1].endswith("Index<I>>::index") and strip(it[2][1])[0] == "agg" and strip(it[2][1])[2] == "std::ops::RangeFrom"
+    raw = R.arg(pbb, 0)
+    iters = [c[1] for c in calls_in(raw) if c[1].startswith("core::slice::")]
+    ok_it = ok_it and iters == ["core::slice::iter"]
+    ck.ob("component-step", "scan-is-bytewise-from-src", ok_it, "the scan iterates the bytes of data[src..] one by one (%s)" % iters, span=pt["loc"], fn=CANON)
+    clo = strip(R.arg(pbb, 1))
+    cb = F.body(clo[2]) if clo[0] == "agg" and clo[1] == "closure" else None
+    tab = BT.predicate_table(cb, 2) if cb is not None else {}
+    seps = tab.get(1, [])
+    ck.ob("component-step", "boundary-is-separator", seps == [47, 92] and not tab.get(None), "the scan stops at the first byte in %s (need exactly '/' and '\\'); evaluated for all 256 byte values" % [chr(x) for x in seps], span=cb.loc if cb else b.loc, fn=CANON)
+    # stop = src + pos + 1  |  len
+    cbb, ct = copies[0]
+    rng = strip(R.arg(cbb, 1))
+    ok_stop = False
+    if rng[0] == "agg" and rng[2] == "std::ops::Range" and ok_it:
+        lo, hi = strip(rng[4][0]), rng[4][1]
+        src_from = strip(strip(it[2][1])[4][0])
+        forms = []
+        for a in alts(hi):
+            a = strip(a)
+            if a[0] == "call" and a[1].endswith("Vec::len"):
+                forms.append("len")
+            elif a[0] == "bin" and a[1] == "Add" and a[3] == ("const", 1) and strip(a[2])[0] == "bin" and strip(a[2])[1] == "Add" and any(c[3] == pbb for c in calls_in(strip(a[2])[3])):
+                forms.append("src+pos+1")
+            else:
+                forms.append("?" + show(a, 2))
+        ok_stop = sorted(forms) == ["len", "src+pos+1"] and show(lo, 3) == show(src_from, 3)
+    ck.ob("component-step", "copy-ends-after-first-separator", ok_stop, "copy_within copies data[src .. src+pos+1] (or to the end when no separator follows)", span=ct["loc"], fn=CANON)
+    # separator class is the same everywhere in canonicalize_path: every byte switch with arm '/' also has arm '\\'
+    bad = []
+    for sbb, st, e in Q.switches(ctx, b):
+        vals = {v for v, _ in st["arms"]}
+        if (47 in vals) != (92 in vals):
+            bad.append(sbb)
+    ck.ob("component-step", "separator-class-consistent", not bad, "every byte dispatch in canonicalize_path treats '/' and '\\' alike (inconsistent switches: %s)" % bad, span=b.loc, fn=CANON)
+
+
 def run(ck, ctx):
+    component_step(ck, ctx)
     sinks(ck, ctx)
     single_map(ck, ctx)
     wrapper(ck, ctx)
